@@ -602,6 +602,9 @@ def ptok(kind, v):
 
 
 ENUMERATORS = {"permutations", "combinations", "subsequences", "power"}
+# call forms the implementation has but BUILTINS.md/README.md do not describe: compared when accepted,
+# a type/argument error is counted and skipped
+UNDOCUMENTED = {"count_eq", "sum_f", "product_f"}
 
 
 def make_case(name, params, args, cmpmode="exact"):
@@ -725,6 +728,17 @@ def gen_cases(ctx):
                         if name in ("min", "max", "sort") and False:
                             continue
                     cases.append(make_case(name, p, [x], mode))
+    # ---- functions without a parameter: exhaustive over 3-symbol alphabets at the longer lengths too
+    paramless = [n for n in UNARY_ALL_KINDS if not PKINDS.get(n)]
+    numeric = {"sum", "product", "min", "max", "sort"}
+    for name in paramless:
+        for n in ((4, 5) if quick else (5, 6)):
+            alpha = [I(1), F(1), I(2)] if name in numeric else [I(1), F(1), S("a")]
+            for t in itertools.product(alpha, repeat=n):
+                cases.append(make_case(name, [], [L(t)]))
+        for kind in "svb":
+            for x in seqs_of(kind, 4 if quick else 5):
+                cases.append(make_case(name, [], [x]))
     # ---- enumerators (position-based: a pool with distinct and with repeated elements per kind)
     emax = 5 if quick else 6
     base = {"l": [I(1), F(1), I(2), S("a"), I(1), I(3)], "v": [I(1), F(1), I(2), I(1), I(3), I(4)], "b": [I(1), I(2), I(3), I(1), I(2), I(4)],
@@ -854,7 +868,7 @@ def evaluate(ctx, cases, runner):
     mres = common.run_model(runner, [c["model"] for c in cases]) if runner else [None] * len(cases)
     common.log(f"[C13] {len(cases)} cases: implementation {t1 - t0:.1f}s, specification runner {time.time() - t1:.1f}s")
     bad = []
-    stats = {"ref_vs_spec_disagree": 0, "alias_checked": 0}
+    stats = {"ref_vs_spec_disagree": 0, "alias_checked": 0, "undocumented_form_rejected": 0}
     for c, r, m in zip(cases, res, mres):
         st = r.get("status")
         c["impl_status"] = st
@@ -868,10 +882,10 @@ def evaluate(ctx, cases, runner):
                 stats["alias_checked"] += 1
                 if unparse(t) != canon(a):
                     alias_ok = False
-        elif st == "err" and r.get("class") != "fuel":
+        elif st == "err" and "verif: fuel exhausted" not in (r.get("msg") or ""):
             obs = "raise"
         else:
-            obs = "hang" if (st == "err" and r.get("class") == "fuel") else st
+            obs = "hang" if st == "err" else st   # fuel exhausted: the call does not terminate in 300k evaluation steps
         c["impl"] = obs
         # --- Coq spec
         exp = None
@@ -900,7 +914,9 @@ def evaluate(ctx, cases, runner):
         if ref is not None and exp is not None and ref != exp:
             stats["ref_vs_spec_disagree"] += 1
         crashed = obs in ("panic", "hang", "abort", "parse", "badjson", "sig", "empty")
-        if crashed:
+        if c["fn"] in UNDOCUMENTED and obs == "raise" and r.get("class") in ("type", "argument"):
+            stats["undocumented_form_rejected"] += 1   # the documentation does not promise this call form
+        elif crashed:
             bad.append(("property", c, r, "the call did not return (panic/hang/abort) on a finite input"))
         elif not alias_ok:
             bad.append(("property", c, r, "an alias of an argument read after the call no longer shows the value it was given"))
@@ -992,6 +1008,7 @@ def run(ctx):
         "samples": [{"program": c["src"], "implementation": c["impl"], "coq_spec": c["spec"], "python_reference": c["ref"]} for c in cases[::step]][:14],
         "by_function": by_fn, "by_input_kind": by_kind, "impl_outcomes": outcomes,
         "aliases_reread": stats["alias_checked"], "reference_vs_spec_disagreements": stats["ref_vs_spec_disagree"],
+        "undocumented_form_rejected_and_skipped": stats["undocumented_form_rejected"],
         "spec_compared": sum(1 for c in cases if c.get("spec") is not None),
         "python_reference_compared": sum(1 for c in cases if c.get("ref") is not None),
     })
@@ -1000,16 +1017,22 @@ def run(ctx):
     return common.conclude(ctx)
 
 
+def val_of_json(j):
+    if j[0] == "Q":
+        return ("Q", j[1], [val_of_json(e) for e in j[2]])
+    return tuple(j)
+
+
 def replay(ctx, rep):
     runner = common.standard_prelude(ctx)
     c = rep["case"]
-
-    def tup(v):
-        return tuple(tup(e) if isinstance(e, list) and e and isinstance(e[0], str) and e[0] in ("N", "I", "F", "S", "Q", "cmpon") else
-                     ([tup(x) for x in e] if isinstance(e, list) else e) for e in v)
-    c["args"] = [tup(a) for a in c["args"]]
-    c["params"] = [tup(p) if isinstance(p, list) else p for p in c["params"]]
-    bad, _ = evaluate(ctx, [c], runner)
+    args = [val_of_json(a) for a in c["args"]]
+    params = []
+    for k, v in zip(PKINDS.get(c["fn"], []), c["params"]):
+        params.append(val_of_json(v) if k == "v" else (tuple(v) if isinstance(v, list) else v))
+    case = make_case(c["fn"], params, args, c.get("cmp", "exact"))
+    bad, _ = evaluate(ctx, [case], runner)
     report(ctx, bad)
-    print(json.dumps({"program": c["src"], "implementation": c.get("impl"), "coq_spec": c.get("spec"), "python_reference": c.get("ref")}))
+    print(json.dumps({"program": case["src"], "implementation": case.get("impl"), "coq_spec": case.get("spec"),
+                      "python_reference": case.get("ref")}))
     return 1 if bad else 0
